@@ -5,6 +5,7 @@ CONSTANTS
   Comps <- FewComps
   Intervals <- Iv4
   MaxActs = 6
+  Cons <- Cons1
   MaxSets = 2
 INVARIANT SameLength
 INVARIANT SameStep
